@@ -9,8 +9,8 @@
 EXTENDS Integers, Sequences, FiniteSets, TLC, Json
 CONSTANT TraceFile
 Trace == ndJsonDeserialize(TraceFile)
-VARIABLES l, cat, mem, ref, order, wlive, wmaybe, viol
-vars == <<l, cat, mem, ref, order, wlive, wmaybe, viol>>
+VARIABLES l, cat, mem, maybe, ref, order, wlive, wmaybe, viol
+vars == <<l, cat, mem, maybe, ref, order, wlive, wmaybe, viol>>
 Empty == [x \in {} |-> 0]
 Put(f, x, v) == [y \in DOMAIN f \cup {x} |-> IF y = x THEN v ELSE f[y]]
 Drop(f, x) == [y \in DOMAIN f \ {x} |-> f[y]]
@@ -23,9 +23,12 @@ ViewViol(t) ==
               ELSE IF t.after = "delete" /\ got \ cat # {} THEN {<<l, "DeletedStillListed">>}
               ELSE {<<l, "CatalogueDiffers">>}
       metav == IF ref # <<>> /\ got = cat /\ t.datasets # ref THEN {<<l, "CatalogueMetadataDiffers">>} ELSE {}
-      memv == IF DOMAIN t.members = DOMAIN mem /\ \A n \in DOMAIN mem : t.members[n] = mem[n] THEN {}
+      \* every acknowledged member is listed with its address; nobody else is, except a node whose join
+      \* attempt ended without an acknowledgement (maybe: the members may or may not have recorded it)
+      memv == IF DOMAIN mem \subseteq DOMAIN t.members /\ DOMAIN t.members \subseteq DOMAIN mem \cup maybe
+                 /\ \A n \in DOMAIN mem : t.members[n] = mem[n] THEN {}
               ELSE IF t.after = "restart" THEN {<<l, "MembersLostOnRestart">>}
-              ELSE IF DOMAIN t.members \ DOMAIN mem # {} THEN {<<l, "RemovedStillListed">>}
+              ELSE IF DOMAIN t.members \ (DOMAIN mem \cup maybe) # {} THEN {<<l, "RemovedStillListed">>}
               ELSE IF DOMAIN mem \ DOMAIN t.members # {} THEN {<<l, "MemberMissing">>}
               ELSE {<<l, "AddressWrong">>}
       errv == IF t.err = "" THEN {} ELSE {<<l, "ViewError">>}
@@ -35,41 +38,43 @@ ViewViol(t) ==
               THEN {<<l, "PartitionOrderChanged">>} ELSE {}
   IN catv \cup metav \cup memv \cup errv \cup ordv
 
-Init == l = 1 /\ cat = {} /\ mem = Empty /\ ref = <<>> /\ order = Empty /\ wlive = {} /\ wmaybe = {} /\ viol = {}
+Init == l = 1 /\ cat = {} /\ mem = Empty /\ maybe = {} /\ ref = <<>> /\ order = Empty /\ wlive = {} /\ wmaybe = {} /\ viol = {}
 Step ==
   /\ l <= Len(Trace) /\ l' = l + 1
   /\ LET t == Trace[l] IN
-     CASE t.ev = "scenario" -> cat' = {} /\ mem' = Empty /\ ref' = <<>> /\ order' = Empty /\ wlive' = {} /\ wmaybe' = {} /\ viol' = viol
+     CASE t.ev = "scenario" -> cat' = {} /\ mem' = Empty /\ maybe' = {} /\ ref' = <<>> /\ order' = Empty /\ wlive' = {} /\ wmaybe' = {} /\ viol' = viol
        [] t.ev = "joined" -> /\ mem' = (IF t.ok = 1 THEN Put(mem, ToString(t.node), t.addr) ELSE mem)
+                             /\ maybe' = (IF t.ok = 1 THEN maybe \ {ToString(t.node)} ELSE maybe \cup {ToString(t.node)})
                              /\ viol' = viol \cup (IF t.ok = 1 THEN {} ELSE {<<l, "JoinFailed">>}) /\ UNCHANGED <<cat, ref, order, wlive, wmaybe>>
        \* a join attempt whose handshake may be lost: acknowledged (the node reports itself ready) or refused
        [] t.ev = "joinattempt" -> /\ mem' = (IF t.ack = 1 THEN Put(mem, ToString(t.node), t.addr) ELSE mem)
+                                  /\ maybe' = (IF t.ack = 1 THEN maybe ELSE maybe \cup {ToString(t.node)})
                                   /\ viol' = viol /\ UNCHANGED <<cat, ref, order, wlive, wmaybe>>
-       [] t.ev = "left" -> /\ mem' = (IF t.ok = 1 THEN Drop(mem, ToString(t.node)) ELSE mem)
+       [] t.ev = "left" -> /\ mem' = (IF t.ok = 1 THEN Drop(mem, ToString(t.node)) ELSE mem) /\ maybe' = maybe
                            /\ viol' = viol /\ UNCHANGED <<cat, ref, order, wlive, wmaybe>>
        [] t.ev = "create" -> /\ cat' = (IF t.ok = 1 THEN cat \cup {t.id} ELSE cat) /\ ref' = <<>>
                              /\ order' = (IF t.ok = 1 THEN Put(order, t.id, t.parts) ELSE order)
-                             /\ viol' = viol \cup (IF t.ok = 1 THEN {} ELSE {<<l, "CreateFailed">>}) /\ UNCHANGED <<mem, wlive, wmaybe>>
+                             /\ viol' = viol \cup (IF t.ok = 1 THEN {} ELSE {<<l, "CreateFailed">>}) /\ UNCHANGED <<mem, maybe, wlive, wmaybe>>
        [] t.ev = "delete" -> /\ cat' = (IF t.ok = 1 THEN cat \ {t.id} ELSE cat) /\ ref' = <<>>
-                             /\ viol' = viol \cup (IF t.ok = 1 THEN {} ELSE {<<l, "DeleteFailed">>}) /\ UNCHANGED <<mem, order, wlive, wmaybe>>
-       [] t.ev = "started" -> /\ viol' = viol \cup (IF t.ok = 1 THEN {} ELSE {<<l, "RestartFailed">>}) /\ ref' = <<>> /\ UNCHANGED <<cat, mem, order, wlive, wmaybe>>
+                             /\ viol' = viol \cup (IF t.ok = 1 THEN {} ELSE {<<l, "DeleteFailed">>}) /\ UNCHANGED <<mem, maybe, order, wlive, wmaybe>>
+       [] t.ev = "started" -> /\ viol' = viol \cup (IF t.ok = 1 THEN {} ELSE {<<l, "RestartFailed">>}) /\ ref' = <<>> /\ UNCHANGED <<cat, mem, maybe, order, wlive, wmaybe>>
        \* acknowledged writes against what a search returns afterwards (C03 on real server processes):
        \* an acknowledged insert is there, an acknowledged remove is gone, nothing else appears; a write whose
        \* acknowledgement was an error may or may not have taken effect
        [] t.ev = "wack" -> /\ wlive' = (IF t.ok = 1 /\ t.kind = "insert" THEN wlive \cup {t.id}
                                         ELSE IF t.ok = 1 /\ t.kind = "remove" THEN wlive \ {t.id} ELSE wlive)
                            /\ wmaybe' = (IF t.ok = 1 THEN wmaybe \ {t.id} ELSE wmaybe \cup {t.id})
-                           /\ UNCHANGED <<cat, mem, ref, order, viol>>
+                           /\ UNCHANGED <<cat, mem, maybe, ref, order, viol>>
        [] t.ev = "found" -> LET got == {t.ids[j] : j \in 1..Len(t.ids)} IN
                             /\ viol' = viol \cup (IF t.err # "" THEN {<<l, "SearchUnavailable">>}
                                                    ELSE (IF (wlive \ wmaybe) \subseteq got THEN {} ELSE {<<l, "AckedLostOnRestart">>})
                                                         \cup (IF got \subseteq wlive \cup wmaybe THEN {} ELSE {<<l, "GhostAfterRestart">>}))
-                            /\ UNCHANGED <<cat, mem, ref, order, wlive, wmaybe>>
-       [] t.ev = "died" -> viol' = viol \cup {<<l, "NodeDied">>} /\ UNCHANGED <<cat, mem, ref, order, wlive, wmaybe>>
+                            /\ UNCHANGED <<cat, mem, maybe, ref, order, wlive, wmaybe>>
+       [] t.ev = "died" -> viol' = viol \cup {<<l, "NodeDied">>} /\ UNCHANGED <<cat, mem, maybe, ref, order, wlive, wmaybe>>
        [] t.ev = "view" -> /\ viol' = viol \cup ViewViol(t)
                            /\ ref' = (IF ref = <<>> /\ Ids(t.datasets) = cat THEN t.datasets ELSE ref)
-                           /\ UNCHANGED <<cat, mem, order, wlive, wmaybe>>
-       [] OTHER -> UNCHANGED <<cat, mem, order, wlive, wmaybe, viol>> /\ ref' = <<>>
+                           /\ UNCHANGED <<cat, mem, maybe, order, wlive, wmaybe>>
+       [] OTHER -> UNCHANGED <<cat, mem, maybe, order, wlive, wmaybe, viol>> /\ ref' = <<>>
 Spec == Init /\ [][Step]_vars
 Report == l = Len(Trace) + 1 => PrintT(<<"VIOL", ToJson([n |-> Len(Trace), v |-> viol])>>)
 =============================================================================
